@@ -282,7 +282,7 @@ fn session_event_stream_of_leaf_builds() {
 
 /// Two roots sharing a dependency, built in separate sessions: P0 and P1 both require P2 (reads Cell1). After a change, P0 is
 /// rebuilt first (which re-executes P2), then P1 in a later session must still notice that P2's output changed.
-//@h props=C01,C09,C02:t tier=quick unwind=14 stubs=sort,boxslice timeout=2400 fieldsens=1024
+//@h props=C01,C09:t,C02:t tier=quick unwind=14 stubs=sort,boxslice timeout=2400 fieldsens=1024
 fn session_td_two_roots_share_a_dependency() {
   unsafe { PROG = [[E; NINS]; NTASK]; PROG[0] = [Ins::Req(2, 0), Ins::Read(0, M_EXACT), E, E]; PROG[1] = [Ins::Req(2, 0), Ins::Set(0), Ins::Req(2, 0), E]; PROG[2] = [Ins::Read(1, M_EXACT), E, E, E]; }
   let mut pie = fresh();
@@ -374,7 +374,7 @@ fn prog_writer_role() { unsafe {
   PROG[3] = [Ins::Req(2, 0), Ins::Req(1, 0), Ins::Read(2, M_EXACT), E];
 } }
 /// The old writer (P1) is re-validated before the new writer (P2) writes: P1 re-executes, drops its write edge, then P2 writes.
-//@h props=C20,C06:t,C08:t,C01:t tier=quick unwind=14 stubs=sort,boxslice timeout=2400 fieldsens=1024
+//@h props=C20:t,C06:t,C08:t,C01:t tier=quick unwind=14 stubs=sort,boxslice timeout=2400 fieldsens=1024
 fn session_c20_writer_role_moves() {
   prog_writer_role();
   let mut pie = fresh();
@@ -393,7 +393,7 @@ fn session_c20_writer_role_moves() {
 /// The same role move, but the generators read Cell0 with the failing-mode checker and the checks FAIL (error, not verdict) in
 /// the build after the flip: a task re-executed because a dependency check failed must drop its old edges just like one
 /// re-executed because of an inconsistency (written after seeded change C20-3).
-//@h props=C20,C18:t,C08:t tier=quick unwind=14 stubs=sort,boxslice timeout=2400 fieldsens=1024
+//@h props=C20:t,C18:t,C08:t tier=quick unwind=14 stubs=sort,boxslice timeout=2400 fieldsens=1024
 fn session_c20_writer_role_moves_after_check_error() {
   prog_writer_role();
   unsafe { PROG[1][0] = Ins::Read(0, M_FAILING); PROG[2][0] = Ins::Read(0, M_FAILING); }
@@ -483,7 +483,7 @@ fn prog_reader_role() { unsafe {
   PROG[1] = [Ins::Req(2, 0), Ins::Req(0, 0), E, E];
 } }
 /// The former reader is re-validated first (drops its read edge), then the new generator writes: no hidden dependency exists.
-//@h props=C20,C05:t,C08:t,C01:t tier=quick unwind=14 stubs=sort,boxslice timeout=2400 fieldsens=1024
+//@h props=C20:t,C05:t,C08:t,C01:t tier=quick unwind=14 stubs=sort,boxslice timeout=2400 fieldsens=1024
 fn session_c20_reader_stops_before_generator_starts() {
   prog_reader_role();
   let mut pie = fresh();
@@ -572,7 +572,7 @@ fn session_c19_first_build_aborted_in_nested_task() { run_c19_first([2, 3]); }
 fn session_c19_first_build_aborted_in_outer_task() { run_c19_first([0, 1]); }
 /// A complete build, then a change, then the re-executing build aborts (inside P1, or inside P0 after it re-required P1);
 /// afterwards the cause is removed or not, and P0 is built again.
-//@h props=C19 tier=quick unwind=14 stubs=sort,boxslice timeout=2400 fieldsens=1024
+//@h props=C19:t tier=quick unwind=14 stubs=sort,boxslice timeout=2400 fieldsens=1024
 fn session_c19_incremental_build_aborted_then_rebuilt() {
   prog_c19();
   let mut pie = fresh();
